@@ -40,6 +40,12 @@ WITNESSES = [
          old="            if any(obj.name in self._forbidden_blocks", new="            if all(obj.name in self._forbidden_blocks"),
     dict(id="c01-wicks-cpart-dropped", prop="C01", file=F, expect="R01d",
          old="result = (Mul(*c_part) * result).expand()", new="result = result.expand()"),
+    dict(id="c01-f11-revert", prop="C01", file=F, expect="R01d",
+         old="    else:  # neither add, Mul, NO or Operator -> maybe a number or a tensor\n        result = expr",
+         new="    else:  # neither add, Mul, NO or Operator -> maybe a number or a tensor\n        return expr"),
+    dict(id="c01-remove-by-value", prop="C01", file=F, expect="R01b",
+         old="            remaining = op_string[1:i] + op_string[i+1:]",
+         new="            remaining = list(op_string[1:])\n            remaining.remove(op_string[i])"),
     # behaviour preserving
     dict(id="c01-ok-rename", prop="C01", file=F, expect=None,
          old="""        c = _contraction(op_string[0], op_string[i])
